@@ -131,6 +131,46 @@ pub fn run(thorough: bool, seed: u64, _replay: Option<String>) -> Report {
             }
         }
     }
+    // > 1 MB inputs under a covering window: ASCII bytes read by single-byte and by multi-byte codecs
+    let nlarge = if thorough { 4 } else { 1 };
+    for k in 0..nlarge {
+        let bytes = large_fit_ascii(&mut rng, k % 2 == 1);
+        let len = bytes.len();
+        let mut seen: Vec<(String, Option<u32>)> = vec![];
+        let windows = [(1usize, 2_000_000usize), (5, 400_000), (4, 300_000), (1, len)];
+        for (j, e) in ["ascii", "utf-8", "windows-1252", "gbk"].iter().enumerate() {
+            let (steps, chunk) = windows[(j + k) % windows.len()];
+            let mut s = Sett::default();
+            s.steps = steps;
+            s.chunk = chunk;
+            s.thr = 0.2;
+            s.fb = false;
+            s.pre = false;
+            s.incl = vec![e.to_string()];
+            rep.evaluations += 1;
+            rep.oracle_checked += 1;
+            rep.nontrivial(fp(&bytes[..4096], &format!("{}{}", s.show(), len)));
+            match real_detect(&bytes, &s) {
+                Outcome::Ok(v) => seen.push((e.to_string(), v.iter().find(|m| m.enc == *e).map(|m| m.chaos))),
+                other => rep.fail("oracle", "C13:unexpected-outcome", &other.show(), &bytes, Some(&s), e),
+            }
+        }
+        rep.count("oracle:large-covering-text");
+        if let Some(first) = seen.first().cloned() {
+            for x in &seen {
+                if x.1 != first.1 {
+                    rep.fail(
+                        "oracle",
+                        "C13:same-text-different-chaos",
+                        &format!("{} bytes of ASCII under covering windows: {} -> chaos {:?} but {} -> chaos {:?}", len, first.0, first.1, x.0, x.1),
+                        &bytes,
+                        None,
+                        &x.0,
+                    );
+                }
+            }
+        }
+    }
     rep.model_rounds = drv.requests;
     rep
 }
